@@ -326,6 +326,10 @@ def _shape(v: Any) -> Any:
         return ("opaque", v.kind)
     if isinstance(v, (SList, SDict)):
         return ("id", id(v))
+    if hasattr(v, "chars") and getattr(type(v), "pyvc_symbolic", False):
+        return ("symstr", tuple(c if isinstance(c, str) else "?" for c in v.chars))
+    if getattr(type(v), "pyvc_model", False):
+        return ("id", id(v))
     try:
         hash(v)
         return ("const", type(v), v)
@@ -353,6 +357,8 @@ def _merge_values(pairs: list[tuple[Any, Any]]) -> Any:
         return SObj(v0.cls, fields, owner=v0.owner, tag=v0.tag)
     if isinstance(v0, ExcValue):
         return v0
+    if hasattr(v0, "chars") and getattr(type(v0), "pyvc_symbolic", False):
+        return type(v0)(tuple(c if isinstance(c, str) else _merge_values([(cd, v.chars[i]) for cd, v in pairs]) for i, c in enumerate(v0.chars)))
     if isinstance(v0, (SInt, SBool, int, bool, SOpaque)):
         r = pairs[-1][1]
         for c, v in reversed(pairs[:-1]):
